@@ -3,6 +3,7 @@ from lib import cfg
 from lib.callgraph import CallGraph
 from rules import common, C01
 
+CRATES = ("agdb",)
 EXPLANATION = (
     "Static analysis: C02 needs the whole undo-log protocol of C01 (re-evaluated here) plus (R02a) database creation and "
     "legacy conversion are each one storage transaction: any two storage-mutating calls that can follow each other on a "
